@@ -173,14 +173,30 @@ class Ctx:
         cmd = [binary or self.vh_path, sub] + [str(a) for a in args]
         t = time.time()
         e = dict(os.environ, **(env or {}))
+        curfile = None
+        if sub == "sweep":
+            self._ncur = getattr(self, "_ncur", 0) + 1
+            curfile = os.path.join(self.scratch, "sweep-current-%d.json" % self._ncur)
+            e["VH_CURRENT_FILE"] = curfile
         p = subprocess.run(cmd, capture_output=True, text=True, timeout=timeout, cwd=self.scratch, env=e)
         res = None
         for line in p.stdout.split("\n"):
             if line.startswith("RESULT "):
                 res = json.loads(line[7:])
+        if res is None and curfile and os.path.exists(curfile) and re.search(r"^(fatal error|runtime: goroutine stack exceeds)", p.stderr, re.M):
+            # the real code killed the sweep (an unrecoverable runtime error): that is a verdict about the project it was examining
+            err = p.stderr
+            first = next((l for l in err.splitlines() if l.startswith(("fatal error", "runtime:"))), err[:200])
+            m = re.search(r"github\.com/jsightapi/(jsight-[a-z-]+)(?:@[^/]+)?/([\w./-]+(?:\(\*?\w+\))?[\w.]*)\(", err)
+            site = (":" + m.group(1) + "/" + m.group(2)) if m else ""
+            rp = json.load(open(curfile))
+            res = dict(cases=1, nontrivial=1, n_mismatch=1, counters={"sweep-killed": 1}, extra={"accepted": 1},
+                       mismatches=[dict(sig="%s:process-died:%s%s" % (str(args[0]).split(",")[0], first[:80], site),
+                                        what="%s: the process examining this project was killed by the real code: %s" % (rp.get("project"), first[:200]),
+                                        replay=rp)])
         if res is None:
             if allow_fail:
-                return dict(error="no result", stdout=p.stdout[-3000:], stderr=p.stderr[-6000:], rc=p.returncode)
+                return dict(error="no result", stdout=p.stdout[-3000:], stderr=p.stderr[:6000] + "\n...\n" + p.stderr[-6000:], rc=p.returncode)
             raise MachineryError("harness %s gave no RESULT (rc=%d)\n%s\n%s" % (sub, p.returncode, p.stdout[-2000:], p.stderr[-4000:]))
         if res.get("error") and not allow_fail:
             raise MachineryError("harness %s: %s" % (sub, res["error"]))
@@ -259,6 +275,14 @@ class Ctx:
                 total["counters"][k] = total["counters"].get(k, 0) + v
 
         def go(lines):
+            # enough is enough: the verdict is settled, and every further dead or hanging worker costs its time limit
+            # (deaths that match a recorded finding are expected on the unchanged tree and do not count)
+            def counts(m):
+                sig = m.get("sig", "")
+                return ":process-died:" in sig and not any(k["property"] == self.prop and re.search(k["sig"], sig) for k in self.known)
+            if sum(1 for m in total["mismatches"] if counts(m)) >= 6:
+                total["counters"]["not-run-after-6-dead-workers"] = total["counters"].get("not-run-after-6-dead-workers", 0) + len(lines)
+                return
             res = run(lines)
             if not res.get("error"):
                 merge(res)
@@ -277,6 +301,19 @@ class Ctx:
                     replay=dict(kind="raw-case", sub=sub, line=lines[0].strip()[:20000])))
                 return
             k = res.get("progress") or 0
+            if 1 <= k <= len(lines) and res.get("rc") == 97:
+                # the worker's own watchdog ended it on case k (a hang): no need to let that case spin a second time
+                total["cases"] += 1
+                total["n_mismatch"] += 1
+                total["mismatches"].append(dict(
+                    sig="%s:process-died:hang" % sig_prefix,
+                    what="the real code does not come back on this case (the worker's watchdog ended it): %s" % (res.get("stderr") or "")[-200:].strip(),
+                    replay=dict(kind="raw-case", sub=sub, line=lines[k - 1].strip()[:20000])))
+                if k > 1:
+                    go(lines[:k - 1])
+                if k < len(lines):
+                    go(lines[k:])
+                return
             if 1 <= k <= len(lines):
                 # the worker recorded the ordinal of the case it was running when it died: that case alone, then the
                 # cases before it (their results were lost with the worker) and the cases behind it
